@@ -48,6 +48,7 @@ var archs = []arch{
 	{name: "VF", ns: "urn:vf", negotiable: true, fail: true},
 	{name: "MF", ns: "urn:mf", mandatory: true, negotiable: true, fail: true},
 	{name: "W", ns: "urn:w", negotiable: true, prohibited: xmpp.Secure},
+	{name: "S", ns: "urn:s", negotiable: true, necessary: xmpp.Secure}, // voluntary, becomes eligible once another feature of the same list has set the bit
 	// masks that overlap: a bit that is both necessary and prohibited can never be satisfied
 	{name: "O", ns: "urn:o", negotiable: true, necessary: xmpp.Secure, prohibited: xmpp.Secure | xmpp.Authn},
 }
@@ -126,16 +127,21 @@ func (w *world) feature(a arch) xmpp.StreamFeature {
 type adItem struct {
 	ns       string
 	required bool
+	local    string // "" : the feature's own element name; otherwise another element in the feature's namespace (not that feature)
 }
 
 func renderAd(items []adItem) string {
 	var b strings.Builder
 	b.WriteString(`<stream:features xmlns:stream='` + streamNS + `'>`)
 	for _, it := range items {
+		l := "f"
+		if it.local != "" {
+			l = it.local
+		}
 		if it.required {
-			fmt.Fprintf(&b, `<f xmlns='%s'><required/></f>`, it.ns)
+			fmt.Fprintf(&b, `<%s xmlns='%s'><required/></%s>`, l, it.ns, l)
 		} else {
-			fmt.Fprintf(&b, `<f xmlns='%s'/>`, it.ns)
+			fmt.Fprintf(&b, `<%s xmlns='%s'/>`, l, it.ns)
 		}
 	}
 	b.WriteString(`</stream:features>`)
@@ -184,6 +190,30 @@ func chooseConfig(c *nd.Ctx, maxK int) []arch {
 		cfg = append(cfg, archs[last])
 	}
 	return cfg
+}
+
+// dependentPool: features whose eligibility changes while one list is worked
+// through without a restart (VM sets Secure and goes on): a voluntary and a
+// mandatory feature that both wait for that bit, and a voluntary one that the
+// bit rules out.
+var dependentPool = []arch{
+	{name: "VM", ns: "urn:vm", negotiable: true, mask: xmpp.Secure},
+	{name: "S", ns: "urn:s", negotiable: true, necessary: xmpp.Secure},
+	{name: "MS", ns: "urn:ms", negotiable: true, mandatory: true, necessary: xmpp.Secure},
+	{name: "W", ns: "urn:w", negotiable: true, prohibited: xmpp.Secure},
+}
+
+// withPool runs body with the archetype list replaced.
+func withPool(pool []arch, body nd.Body) nd.Body {
+	return func(c *nd.Ctx) nd.Result {
+		saved := archs
+		archs = pool
+		// these lists are ranged over once per negotiated feature: a changed
+		// iteration order is a deviation here (bounded), not a free choice
+		vs.MapOrderCost = 1
+		defer func() { archs = saved; vs.MapOrderCost = 0 }()
+		return body(c)
+	}
 }
 
 var initialStates = []xmpp.SessionState{0, xmpp.Secure, xmpp.Secure | xmpp.Authn, xmpp.Authn} // the last one: authenticated by other means before any security layer
@@ -252,14 +282,20 @@ func initiatorBody(maxK, maxStreams int, twice bool) nd.Body {
 			}
 			// a new stream: the peer answers the header and advertises
 			var ad []adItem
-			for _, a := range cands {
-				switch c.Choose(opts, "advertise-"+a.name) {
-				case 1:
-					ad = append(ad, adItem{a.ns, false})
-				case 2:
-					ad = append(ad, adItem{a.ns, true})
-				case 3:
-					ad = append(ad, adItem{a.ns, false}, adItem{a.ns, true})
+			for i, a := range cands {
+				n := opts
+				if i == 0 && len(ads) == 0 {
+					n++ // in the first list the first configured feature may also meet an unknown element that shares its namespace
+				}
+				switch k := c.Choose(n, "advertise-"+a.name); {
+				case k == n-1 && i == 0 && len(ads) == 0:
+					ad = append(ad, adItem{a.ns, true, "g"})
+				case k == 1:
+					ad = append(ad, adItem{ns: a.ns})
+				case k == 2:
+					ad = append(ad, adItem{ns: a.ns, required: true})
+				case k == 3:
+					ad = append(ad, adItem{ns: a.ns}, adItem{ns: a.ns, required: true})
 				}
 			}
 			ads = append(ads, ad)
@@ -315,7 +351,7 @@ func initiatorBody(maxK, maxStreams int, twice bool) nd.Body {
 			ad := ads[e.stream]
 			advertised, required := false, false
 			for _, it := range ad {
-				if it.ns == e.ns {
+				if it.ns == e.ns && it.local == "" {
 					advertised = true
 					required = required || it.required
 				}
@@ -334,10 +370,13 @@ func initiatorBody(maxK, maxStreams int, twice bool) nd.Body {
 			// taken, no eligible un-negotiated voluntary feature of that list remains
 			if required || forcedTLS {
 				for _, it := range ad {
+					if it.local != "" {
+						continue
+					}
 					b, ok := byNS(cfg, it.ns)
 					isReq := false
 					for _, jt := range ad {
-						if jt.ns == it.ns && jt.required {
+						if jt.ns == it.ns && jt.required && jt.local == "" {
 							isReq = true
 						}
 					}
@@ -380,7 +419,7 @@ func initiatorBody(maxK, maxStreams int, twice bool) nd.Body {
 				last := len(ads) - 1
 				for _, it := range ads[last] {
 					a, ok := byNS(cfg, it.ns)
-					if ok && it.required && a.negotiable && !negotiated[w.strmNo][it.ns] && eligible(a, fin&^xmpp.Ready) {
+					if ok && it.local == "" && it.required && a.negotiable && !negotiated[w.strmNo][it.ns] && eligible(a, fin&^xmpp.Ready) {
 						sig := "established-with-pending-mandatory"
 						if n := len(w.events); n > 0 {
 							if l, _ := byNS(cfg, w.events[n-1].ns); l.mask&xmpp.Ready != 0 {
@@ -650,6 +689,8 @@ func init() {
 			return []drv.Part{
 				{Name: "initiator", Desc: fmt.Sprintf("<= %d features, <= %d advertisements", k, n), Body: initiatorBody(k, n, twice), CutDepth: 5, Budget: b},
 				{Name: "receiver", Desc: fmt.Sprintf("<= %d features, <= %d selections", k, n+1), Body: receiverBody(k, n+1), CutDepth: 5, Budget: b},
+				{Name: "initiator-dependent", Desc: fmt.Sprintf("<= 3 of 4 features whose eligibility depends on a bit another feature of the same list sets without a restart, <= %d advertisements", n-1), Body: withPool(dependentPool, initiatorBody(3, n-1, twice)), MaxDev: 2, CutDepth: 5, Budget: b},
+				{Name: "receiver-dependent", Desc: fmt.Sprintf("the same configurations on the receiving side, <= %d selections", n+1), Body: withPool(dependentPool, receiverBody(3, n+1)), MaxDev: 2, CutDepth: 5, Budget: b},
 			}
 		},
 	})
